@@ -296,7 +296,8 @@ impl Property for C01 {
                     entries.push(Entry::Column { source: Source::Groups(refs), name: cname, ty: format!("{}[]", elem), modifier });
                 }
                 2 => {
-                    let n = 2 + t.draw(6);
+                    // (up to nine listed groups: those after the seventh take no part)
+                    let n = 2 + t.draw(8);
                     let refs = (0..n).map(|_| pick_ref(t)).collect();
                     let modifier = match t.draw(5) {
                         0 => Some(Modifier::Microseconds),
